@@ -194,8 +194,12 @@ def rule_provenance(ctx, rid):
                         for cnd, truth, ln in b.conds:
                             if truth and cnd[0] == 'cmp' and cnd[1] == '<' and cnd[2] == val \
                                     and show(cnd[3]).endswith('.shape[0]'):
-                                guard = True
-                        if not guard:
+                                if _is_tree_size(cnd[3], val):
+                                    guard = True
+                                else:
+                                    bad1 = 'the neighbour index is tested against %s, not against the number of points ' \
+                                           'of the searched set (the value the tree returns for "no neighbour")' % show(cnd[3])[:40]
+                        if not guard and not bad1:
                             bad1 = 'a neighbour index is accepted without the `< y.shape[0]` range guard'
     if n1 == 0 and not bad1:
         # vectorised form:  final = np.full(n, -1); final[good] = W[good]  with  W = inds[arange(n), winner]  and
@@ -231,6 +235,10 @@ def rule_provenance(ctx, rid):
                       and W[2][1][0][1] == 'numpy.arange'
                       and any(t[0] == 'meth' and t[1] == 'query' for t in subterms(W[1]))):
                 bad1 = 'the assigned values are not inds[i, winner[i]]: %s' % show(W)[:60]
+            elif any(cj[0] == 'cmp' and cj[1] == '<' and cj[2] == W and show(cj[3]).endswith('.shape[0]')
+                     and not _is_tree_size(cj[3], W) for cj in conj):
+                bad1 = 'the neighbour index is tested against another array\'s length, not against the number of points of ' \
+                       'the searched set'
             elif not any(cj[0] == 'cmp' and cj[1] == '<' and cj[2] == W and show(cj[3]).endswith('.shape[0]')
                          for cj in conj):
                 bad1 = 'a neighbour index is accepted without the `< y.shape[0]` range guard'
@@ -316,6 +324,31 @@ def rule_one_claimant(ctx, rid):
         ctx.undecided(rid, fi, c, [v[1] for v in verdicts if v[0] == 'unknown'][0])
     else:
         ctx.passed(rid, fi, c, '%d marking state(s)' % len(verdicts))
+
+
+def _is_tree_size(bound, val):
+    """bound is the number of points of the set the neighbour indices in `val` refer to: Y.shape[0] for the array Y
+    the cKDTree behind `val` was built on (None-safe: True when no tree construction is visible in the term)"""
+    from ..poly import _shape_only_index
+    trees = [t for t in subterms(val) if t[0] == 'call' and t[1].endswith('cKDTree') and t[2]]
+    if not trees:
+        return True
+    ok = False
+
+    def strip(a):
+        while a[0] == 'sub' and _shape_only_index(a[2]):
+            a = a[1]
+        return a
+    # the same array with or without its singleton axis has the same number of rows
+    if bound[0] == 'sub' and bound[2] == C(0) and bound[1][0] == 'attr' and bound[1][2] == 'shape':
+        bound = ('sub', ('attr', strip(bound[1][1]), 'shape'), C(0))
+    elif bound[0] == 'call' and bound[1] == 'builtins.len' and len(bound[2]) == 1:
+        bound = ('call', 'builtins.len', (strip(bound[2][0]),), ())
+    for t in trees:
+        Y = strip(t[2][0])
+        if bound in (('sub', ('attr', Y, 'shape'), C(0)), ('call', 'builtins.len', (Y,), ()), ('attr', t, 'n')):
+            ok = True
+    return ok
 
 
 def _claimants(idx, col):
